@@ -214,4 +214,31 @@ theorem markSost_locs_partial (m : Nat) (cc : ChipCh) : locs (markSost m cc) = l
   simp only [Function.comp]
   split <;> rfl
 
+
+/-- **the note-on guard is exactly the condition under which the user can be listed**: find_or_create_user fails iff the list is
+    full (128) and the location absent — which is what realTime_NoteOn tests before it lets the note refer to the chip channel
+    (an accepted note is therefore always listed by its chip channel: I1 at the moment of creation) -/
+theorem findOrCreateUser_fails_iff (cc : ChipCh) (m k : Nat) :
+    (findOrCreateUser cc m k).2 = false ↔ (cc.users.length = 128 ∧ cc.users.any (·.isLoc m k) = false) := by
+  unfold findOrCreateUser
+  by_cases h : cc.users.any (·.isLoc m k) = true
+  · simp [h]
+  · have h' : cc.users.any (·.isLoc m k) = false := by simpa using h
+    by_cases hl : cc.users.length = 128
+    · simp [h', hl]
+    · simp [h', hl]
+
+/-- … and when it succeeds the location is listed afterwards -/
+theorem findOrCreateUser_lists_partial (cc : ChipCh) (m k : Nat) (h : (findOrCreateUser cc m k).2 = true) :
+    (findOrCreateUser cc m k).1.users.any (·.isLoc m k) = true := by
+  unfold findOrCreateUser at h ⊢
+  by_cases h1 : cc.users.any (·.isLoc m k) = true
+  · simp [h1]
+  · have h' : cc.users.any (·.isLoc m k) = false := by simpa using h1
+    by_cases hl : cc.users.length = 128
+    · simp [h', hl] at h
+    · have hne : (cc.users.length != 128) = true := by simpa using hl
+      simp only [h', Bool.false_eq_true, if_false, hne, if_true, List.any_append, List.any_cons, List.any_nil, Bool.or_false]
+      simp [User.isLoc, newUser]
+
 end Opn.C04
